@@ -24,6 +24,11 @@ def benc(v):
     raise TypeError(v)
 
 
+def pid(p):
+    """Peer id bytes: plain ASCII `id`, or arbitrary bytes given as `id_hex`."""
+    return bytes.fromhex(p["id_hex"]) if p.get("id_hex") else p["id"].encode()
+
+
 class World:
     def __init__(self, sc):
         self.sc = sc
@@ -95,7 +100,7 @@ async def tracker(w, reader, writer):
         elif kind == "failure":
             body = benc({b"failure reason": b"torrent not registered"})
         else:
-            peers = [{b"ip": p.get("host", "127.0.0.1").encode(), b"peer id": p["id"].encode(), b"port": p["port"]} for p in w.sc["peers"] if not p["incoming"]]
+            peers = [{b"ip": p.get("host", "127.0.0.1").encode(), b"peer id": pid(p), b"port": p["port"]} for p in w.sc["peers"] if not p["incoming"]]
             body = benc({b"interval": 1800, b"peers": peers})
             if "info_hash=" not in line or "peer_id=" not in line or "port=6881" not in line:
                 w.note("BAD announce line", line)
@@ -177,7 +182,7 @@ async def hostile(w, p, reader, writer, we_connect):
     rnd = random.Random(p["seed"])
     rec = {"port": p["port"], "kind": p["kind"], "expect_close": p["expect_close"], "closed_after_s": None, "closed_early_at_step": None, "incoming": p["incoming"]}
     w.hostile.append(rec)
-    my_hs = bytes([19]) + PROTO + bytes(8) + w.info_hash + p["id"].encode()
+    my_hs = bytes([19]) + PROTO + bytes(8) + w.info_hash + pid(p)
 
     async def drain():
         try:
@@ -273,7 +278,7 @@ async def seeder(w, p, reader, writer, we_connect):
     n = len(w.pieces)
     have = p["have"]
     chunk = p.get("chunk", 0)
-    my_hs = bytes([19]) + PROTO + bytes(8) + w.info_hash + p["id"].encode()
+    my_hs = bytes([19]) + PROTO + bytes(8) + w.info_hash + pid(p)
     try:
         if we_connect:
             if p.get("handshake_delay_ms"):
@@ -382,7 +387,7 @@ async def second_connection(w, p):
     w.note("peer", p["port"], "opened a second connection from its own port")
     w.second_connections += 1
     try:
-        my_hs = bytes([19]) + PROTO + bytes(8) + w.info_hash + p["id"].encode()
+        my_hs = bytes([19]) + PROTO + bytes(8) + w.info_hash + pid(p)
         writer.write(my_hs)
         await writer.drain()
         await asyncio.wait_for(reader.readexactly(68), 5)
@@ -412,6 +417,15 @@ async def incoming_peer(w, p):
         w.note("incoming peer could not connect to 6881")
         return
     w.note("incoming peer", p["port"], "connected to the client")
+    if p.get("kind") == "mute":
+        # a port scanner / half-open client: connects, says nothing, keeps the connection open
+        w.hostile.append({"port": p["port"], "kind": "mute", "expect_close": False, "done": True})
+        try:
+            await asyncio.wait_for(reader.read(1 << 16), p.get("hold_s", 60))
+        except (asyncio.TimeoutError, ConnectionError, OSError):
+            pass
+        writer.close()
+        return
     await seeder(w, p, reader, writer, True)
 
 
